@@ -23,6 +23,17 @@ pub const RSA2048_SHORT: [(&str, &str); 3] = [
     (include_str!("../../fixtures/rsa2048_short_2.pem"), include_str!("../../fixtures/rsa2048_short_2.pub.pem")),
 ];
 
+/// honest openssl-generated keys whose PKCS#1 DER ends in an ASCII whitespace byte (0d, 0a / 09, 0d):
+/// about one key in fifty
+pub const RSA2048_WS: [(&str, &str); 2] = [
+    (include_str!("../../fixtures/rsa2048_ws_0.pem"), include_str!("../../fixtures/rsa2048_ws_0.pub.pem")),
+    (include_str!("../../fixtures/rsa2048_ws_1.pem"), include_str!("../../fixtures/rsa2048_ws_1.pub.pem")),
+];
+pub const RSA4096_WS: [(&str, &str); 2] = [
+    (include_str!("../../fixtures/rsa4096_ws_0.pem"), include_str!("../../fixtures/rsa4096_ws_0.pub.pem")),
+    (include_str!("../../fixtures/rsa4096_ws_1.pem"), include_str!("../../fixtures/rsa4096_ws_1.pub.pem")),
+];
+
 pub const RSA2048: [(&str, &str); 4] = [
     (include_str!("../../fixtures/rsa2048_0.pem"), include_str!("../../fixtures/rsa2048_0.pub.pem")),
     (include_str!("../../fixtures/rsa2048_1.pem"), include_str!("../../fixtures/rsa2048_1.pub.pem")),
@@ -42,11 +53,22 @@ pub const RSA_WRONG: [(u32, &str, &str); 4] = [
 ];
 
 fn v1_signing_pair(idx: usize) -> (&'static str, &'static str) {
-    match idx % 9 {
+    match idx % 11 {
         i @ 0..=3 => RSA2048[i],
         i @ 4..=5 => RSA2048_PHI[i - 4],
-        i => RSA2048_SHORT[i - 6],
+        i @ 6..=8 => RSA2048_SHORT[i - 6],
+        i => RSA2048_WS[i - 9],
     }
+}
+
+/// Modulus of a pool RSA-4096 sealing key (idx as in `pool_key`), read from the fixture's SPKI DER.
+pub fn rsa4096_modulus(idx: usize) -> Option<Vec<u8>> {
+    let (pem, _) = pool_key(Kind::PkePublic, idx)?;
+    let der = crate::keycheck::pem_to_der(pem)?;
+    // INTEGER, long form, 0x0201 bytes, leading sign octet 00, then the 512 modulus bytes
+    let pat = [0x02u8, 0x82, 0x02, 0x01, 0x00];
+    let at = der.windows(5).position(|w| w == pat)?;
+    der.get(at + 5..at + 5 + 512).map(|x| x.to_vec())
 }
 
 /// (PEM text, is_secret)
@@ -54,8 +76,8 @@ pub fn pool_key(kind: Kind, idx: usize) -> Option<(&'static str, bool)> {
     match kind {
         Kind::Secret => Some((v1_signing_pair(idx).0, true)),
         Kind::Public => Some((v1_signing_pair(idx).1, false)),
-        Kind::PkeSecret => Some((RSA4096[idx % 2].0, true)),
-        Kind::PkePublic => Some((RSA4096[idx % 2].1, false)),
+        Kind::PkeSecret => Some((if idx % 4 < 2 { RSA4096[idx % 4].0 } else { RSA4096_WS[idx % 4 - 2].0 }, true)),
+        Kind::PkePublic => Some((if idx % 4 < 2 { RSA4096[idx % 4].1 } else { RSA4096_WS[idx % 4 - 2].1 }, false)),
         Kind::Local => None,
     }
 }
